@@ -49,17 +49,19 @@ v('c07-task-failure-logged','R-C07.6','evolve/base.py',"""            for task i
                 except Exception:
                     import logging
                     logging.exception('Task %s failed', task)""",note='a failing purge task is logged and the run goes on to record success')
-v('c07-batch-failure-continues','R-C07.6','evolve/evolve_app_task.py',"""                        if task_sql:
-                            task.execute(sql_executor=sql_executor,
-                                         sql=task_sql,
-                                         **kwargs)""","""                        if task_sql:
+v('c07-batch-failure-continues','R-C07.6','evolve/evolve_app_task.py',"""                            batch_labels = set(
+                                task_info.get('evolutions', []))
+
+                            task.execute(""","""                            batch_labels = set(
+                                task_info.get('evolutions', []))
+
                             try:
-                                task.execute(sql_executor=sql_executor,
-                                             sql=task_sql,
-                                             **kwargs)
+                                task.prepare_batch = True
                             except EvolutionExecutionError as e:
                                 logger.error('%s', e)
-                                raise""",expect='silent',note='re-raising handler is fine')
+                                raise
+
+                            task.execute(""",expect='silent',note='re-raising handler is fine')
 # silent refactors
 v('c07-s-rename-local','R-C07.1','utils/sql.py',"""        transaction = self._latest_transaction
 
